@@ -29,3 +29,312 @@ pub(crate) fn mk_id(b: u8) -> crate::id::Id {
     r[0] = b;
     crate::id::Id::new(r)
 }
+
+// ---------------------------------------------------------------------------
+// Mock storage backend: ONE tracked file slot (stores are keyed maps; operations
+// on different keys do not interact), symbolic fault flags, call counters.
+// No HashMap, no allocation of symbolic size.
+// ---------------------------------------------------------------------------
+use crate::backend::{BytesList, FileType, ReadBackend, WriteBackend};
+use bytes::Bytes;
+use std::sync::atomic::{AtomicBool, AtomicU32, AtomicU8, Ordering::SeqCst};
+
+#[derive(Debug)]
+pub(crate) struct MockBe {
+    pub present: AtomicBool,
+    /// content tag of the tracked file (first byte written)
+    pub tag: AtomicU8,
+    pub size: AtomicU32,
+    /// fault: the operation fails without any effect
+    pub fail_write: bool,
+    pub fail_remove: bool,
+    pub fail_create: bool,
+    /// fault: the operation takes effect but the caller sees an error (crash / lost ack right after it)
+    pub lost_ack: bool,
+    pub n_write: AtomicU8,
+    pub n_remove: AtomicU8,
+    pub n_create: AtomicU8,
+    pub n_read_full: AtomicU8,
+    pub n_read_partial: AtomicU8,
+    pub n_list: AtomicU8,
+    pub n_warm: AtomicU8,
+    /// last key seen by write/remove/read (tpe as u8, first id byte, cacheable)
+    pub last_tpe: AtomicU8,
+    pub last_id0: AtomicU8,
+    pub last_cacheable: AtomicBool,
+    /// bytes served by reads
+    pub data: &'static [u8],
+    pub warm: bool,
+}
+
+pub(crate) fn tpe_u8(t: FileType) -> u8 {
+    match t { FileType::Config => 0, FileType::Index => 1, FileType::Key => 2, FileType::Snapshot => 3, FileType::Pack => 4 }
+}
+pub(crate) fn any_tpe() -> FileType {
+    match kani::any::<u8>() % 5 { 0 => FileType::Config, 1 => FileType::Index, 2 => FileType::Key, 3 => FileType::Snapshot, _ => FileType::Pack }
+}
+
+impl MockBe {
+    pub(crate) fn new(present: bool, tag: u8, data: &'static [u8]) -> Self {
+        Self {
+            present: AtomicBool::new(present), tag: AtomicU8::new(tag), size: AtomicU32::new(1),
+            fail_write: false, fail_remove: false, fail_create: false, lost_ack: false,
+            n_write: AtomicU8::new(0), n_remove: AtomicU8::new(0), n_create: AtomicU8::new(0),
+            n_read_full: AtomicU8::new(0), n_read_partial: AtomicU8::new(0), n_list: AtomicU8::new(0), n_warm: AtomicU8::new(0),
+            last_tpe: AtomicU8::new(255), last_id0: AtomicU8::new(0), last_cacheable: AtomicBool::new(false),
+            data, warm: false,
+        }
+    }
+    fn note(&self, tpe: FileType, id: &crate::id::Id, c: bool) {
+        self.last_tpe.store(tpe_u8(tpe), SeqCst);
+        self.last_id0.store(crate::id::verif_harness::id0(id), SeqCst);
+        self.last_cacheable.store(c, SeqCst);
+    }
+    pub(crate) fn mutations(&self) -> u8 {
+        self.n_write.load(SeqCst) + self.n_remove.load(SeqCst) + self.n_create.load(SeqCst)
+    }
+    fn err() -> Box<RusticError> { RusticError::new(ErrorKind::Backend, "injected fault") }
+}
+impl ReadBackend for MockBe {
+    fn location(&self) -> String { String::new() }
+    fn list_with_size(&self, _tpe: FileType) -> RusticResult<Vec<(crate::id::Id, u32)>> {
+        self.n_list.fetch_add(1, SeqCst);
+        Ok(Vec::new())
+    }
+    fn read_full(&self, tpe: FileType, id: &crate::id::Id) -> RusticResult<Bytes> {
+        self.n_read_full.fetch_add(1, SeqCst);
+        self.note(tpe, id, false);
+        Ok(Bytes::from_static(self.data))
+    }
+    fn read_partial(&self, tpe: FileType, id: &crate::id::Id, c: bool, offset: u32, length: u32) -> RusticResult<Bytes> {
+        self.n_read_partial.fetch_add(1, SeqCst);
+        self.note(tpe, id, c);
+        let (o, l) = (offset as usize, length as usize);
+        if o > self.data.len() || l > self.data.len() - o {
+            return Err(Self::err());
+        }
+        Ok(Bytes::from_static(&self.data[o..o + l]))
+    }
+    fn warmup_path(&self, _tpe: FileType, _id: &crate::id::Id) -> String { String::new() }
+    fn needs_warm_up(&self) -> bool { self.warm }
+    fn warm_up(&self, _tpe: FileType, _id: &crate::id::Id) -> RusticResult<()> { self.n_warm.fetch_add(1, SeqCst); Ok(()) }
+}
+impl WriteBackend for MockBe {
+    fn create(&self) -> RusticResult<()> {
+        if self.fail_create { return Err(Self::err()); }
+        self.n_create.fetch_add(1, SeqCst);
+        if self.lost_ack { return Err(Self::err()); }
+        Ok(())
+    }
+    fn write_bytes(&self, tpe: FileType, id: &crate::id::Id, c: bool, content: BytesList) -> RusticResult<()> {
+        if self.fail_write { std::mem::forget(content); return Err(Self::err()); }
+        self.n_write.fetch_add(1, SeqCst);
+        self.note(tpe, id, c);
+        self.present.store(true, SeqCst);
+        let sl = content.slice();
+        let t = if !sl.is_empty() && !sl[0].is_empty() { sl[0][0] } else { 0 };
+        self.tag.store(t, SeqCst);
+        self.size.store(content.size() as u32, SeqCst);
+        std::mem::forget(content);
+        if self.lost_ack { return Err(Self::err()); }
+        Ok(())
+    }
+    fn remove(&self, tpe: FileType, id: &crate::id::Id, c: bool) -> RusticResult<()> {
+        if self.fail_remove { return Err(Self::err()); }
+        self.n_remove.fetch_add(1, SeqCst);
+        self.note(tpe, id, c);
+        self.present.store(false, SeqCst);
+        if self.lost_ack { return Err(Self::err()); }
+        Ok(())
+    }
+}
+
+// ---------------------------------------------------------------------------
+// Model CryptoKey (ideal single-use AEAD, DESIGN 1.5):
+//   encrypt(p) = nonce[16] || (p XOR 0x5a) || tag[16],  nonce[0] arbitrary (models the RNG), rest 0;
+//   tag[0] = checksum(nonce[0], ciphertext), tag[1..] = 0xA5.
+//   decrypt accepts exactly byte strings with a consistent tag, so changing any single byte of
+//   nonce[0] / ciphertext / tag[0] makes it fail.
+// DecryptBackend<C: CryptoKey> is generic: the *real* backend code runs over this key.
+// ---------------------------------------------------------------------------
+use crate::crypto::CryptoKey;
+
+#[derive(Clone, Copy, Debug)]
+pub(crate) struct ModelKey;
+
+fn model_tag(nonce0: u8, ct: &[u8]) -> u8 {
+    let mut t = nonce0 ^ 0x3c ^ (ct.len() as u8).wrapping_mul(17);
+    let mut i = 0;
+    while i < ct.len() {
+        t = t.wrapping_add(ct[i]).rotate_left(1) ^ (i as u8);
+        i += 1;
+    }
+    t
+}
+
+pub(crate) const MODEL_OVERHEAD: usize = 32;
+
+impl CryptoKey for ModelKey {
+    fn decrypt_data(&self, data: &[u8]) -> RusticResult<Vec<u8>> {
+        if data.len() < MODEL_OVERHEAD {
+            return Err(RusticError::new(ErrorKind::Cryptography, "model: too short"));
+        }
+        let n = data.len() - MODEL_OVERHEAD;
+        let mut i = 1;
+        while i < 16 {
+            if data[i] != 0 || data[16 + n + i] != 0xA5 {
+                return Err(RusticError::new(ErrorKind::Cryptography, "model: mac"));
+            }
+            i += 1;
+        }
+        if data[16 + n] != model_tag(data[0], &data[16..16 + n]) {
+            return Err(RusticError::new(ErrorKind::Cryptography, "model: mac"));
+        }
+        let mut out = Vec::with_capacity(8);
+        let mut j = 0;
+        while j < n {
+            out.push(data[16 + j] ^ 0x5a);
+            j += 1;
+        }
+        Ok(out)
+    }
+    fn encrypt_data(&self, data: &[u8]) -> RusticResult<Vec<u8>> {
+        let mut out = Vec::with_capacity(48);
+        let nonce0: u8 = kani::any();
+        out.push(nonce0);
+        let mut i = 1;
+        while i < 16 { out.push(0); i += 1; }
+        let mut j = 0;
+        while j < data.len() { out.push(data[j] ^ 0x5a); j += 1; }
+        let t = model_tag(nonce0, &out[16..]);
+        out.push(t);
+        let mut k = 1;
+        while k < 16 { out.push(0xA5); k += 1; }
+        Ok(out)
+    }
+}
+
+/// is `enc` an output of ModelKey::encrypt_data for plaintext `p`?
+pub(crate) fn is_model_ciphertext_of(enc: &[u8], p: &[u8]) -> bool {
+    if enc.len() != p.len() + MODEL_OVERHEAD { return false; }
+    let mut j = 0;
+    while j < p.len() { if enc[16 + j] != p[j] ^ 0x5a { return false; } j += 1; }
+    let mut i = 1;
+    while i < 16 { if enc[i] != 0 || enc[16 + p.len() + i] != 0xA5 { return false; } i += 1; }
+    enc[16 + p.len()] == model_tag(enc[0], &enc[16..16 + p.len()])
+}
+
+// ---------------------------------------------------------------------------
+// zstd model: invertible framing 0xFD || data  (stubs for zstd::stream::{encode_all, decode_all, copy_encode})
+// ---------------------------------------------------------------------------
+pub(crate) fn stub_encode_all<R: std::io::Read>(mut source: R, _level: i32) -> std::io::Result<Vec<u8>> {
+    // one bounded read: harness inputs are at most 16 bytes
+    let mut buf = [0u8; 16];
+    let n = source.read(&mut buf)?;
+    let mut v = Vec::with_capacity(17);
+    v.push(0xFD);
+    let mut i = 0;
+    while i < n { v.push(buf[i]); i += 1; }
+    Ok(v)
+}
+pub(crate) fn stub_decode_all<R: std::io::Read>(mut source: R) -> std::io::Result<Vec<u8>> {
+    let mut buf = [0u8; 17];
+    let n = source.read(&mut buf)?;
+    if n == 0 || buf[0] != 0xFD { return Err(std::io::Error::from(std::io::ErrorKind::InvalidData)); }
+    let mut v = Vec::with_capacity(16);
+    let mut i = 1;
+    while i < n { v.push(buf[i]); i += 1; }
+    Ok(v)
+}
+pub(crate) fn stub_copy_encode<R: std::io::Read, W: std::io::Write>(mut source: R, mut destination: W, _level: i32) -> std::io::Result<()> {
+    let mut buf = [0u8; 17];
+    buf[0] = 0xFD;
+    let n = source.read(&mut buf[1..])?;
+    destination.write_all(&buf[..n + 1])?;
+    Ok(())
+}
+
+// ---------------------------------------------------------------------------
+// hash model H': cheap, length- and position-sensitive checksum standing in for SHA-256
+// (stub for crate::crypto::hasher::hash).  Checked statements are of the form
+// "the id recorded == hash(the bytes written)" and call `hash` by its real name.
+// ---------------------------------------------------------------------------
+pub(crate) fn stub_hash(data: &[u8]) -> crate::id::Id {
+    let mut r = [0u8; 32];
+    let mut a: u8 = 0x9e;
+    let mut b: u8 = data.len() as u8;
+    let mut i = 0;
+    while i < data.len() {
+        a = a.wrapping_add(data[i]).rotate_left(3) ^ (i as u8);
+        b = b.wrapping_mul(31).wrapping_add(data[i]);
+        i += 1;
+    }
+    r[0] = a;
+    r[1] = b;
+    crate::id::Id::new(r)
+}
+
+/// a write-recording sink: remembers the first (tpe, id, bytes) written (up to CAP bytes)
+pub(crate) const SINK_CAP: usize = 64;
+#[derive(Debug)]
+pub(crate) struct RecBe {
+    pub n_write: AtomicU8,
+    pub tpe: AtomicU8,
+    pub id: [AtomicU8; 32],
+    pub len: AtomicU32,
+    pub bytes: [AtomicU8; SINK_CAP],
+    pub cacheable: AtomicBool,
+    /// bytes served by read_full / read_partial
+    pub serve: &'static [u8],
+}
+impl RecBe {
+    pub(crate) fn new(serve: &'static [u8]) -> Self {
+        Self { n_write: AtomicU8::new(0), tpe: AtomicU8::new(255), id: [const { AtomicU8::new(0) }; 32], len: AtomicU32::new(0),
+               bytes: [const { AtomicU8::new(0) }; SINK_CAP], cacheable: AtomicBool::new(false), serve }
+    }
+    pub(crate) fn written_id(&self) -> crate::id::Id {
+        let mut r = [0u8; 32];
+        let mut k = 0;
+        while k < 32 { r[k] = self.id[k].load(SeqCst); k += 1; }
+        crate::id::Id::new(r)
+    }
+    pub(crate) fn written(&self) -> Vec<u8> {
+        let n = self.len.load(SeqCst) as usize;
+        let mut v = Vec::with_capacity(SINK_CAP);
+        let mut i = 0;
+        while i < n && i < SINK_CAP { v.push(self.bytes[i].load(SeqCst)); i += 1; }
+        v
+    }
+}
+impl ReadBackend for RecBe {
+    fn location(&self) -> String { String::new() }
+    fn list_with_size(&self, _tpe: FileType) -> RusticResult<Vec<(crate::id::Id, u32)>> { Ok(Vec::new()) }
+    fn read_full(&self, _tpe: FileType, _id: &crate::id::Id) -> RusticResult<Bytes> { Ok(Bytes::from_static(self.serve)) }
+    fn read_partial(&self, _tpe: FileType, _id: &crate::id::Id, _c: bool, offset: u32, length: u32) -> RusticResult<Bytes> {
+        let (o, l) = (offset as usize, length as usize);
+        if o > self.serve.len() || l > self.serve.len() - o { return Err(RusticError::new(ErrorKind::Backend, "read outside file")); }
+        Ok(Bytes::from_static(&self.serve[o..o + l]))
+    }
+    fn warmup_path(&self, _tpe: FileType, _id: &crate::id::Id) -> String { String::new() }
+}
+impl WriteBackend for RecBe {
+    fn create(&self) -> RusticResult<()> { Ok(()) }
+    fn write_bytes(&self, tpe: FileType, id: &crate::id::Id, c: bool, content: BytesList) -> RusticResult<()> {
+        if self.n_write.fetch_add(1, SeqCst) == 0 {
+            self.tpe.store(tpe_u8(tpe), SeqCst);
+            self.cacheable.store(c, SeqCst);
+            let raw = crate::id::verif_harness::bytes(id);
+            let mut k = 0;
+            while k < 32 { self.id[k].store(raw[k], SeqCst); k += 1; }
+            let mut n = 0usize;
+            for b in content.slice() {
+                let mut i = 0;
+                while i < b.len() { if n < SINK_CAP { self.bytes[n].store(b[i], SeqCst); } n += 1; i += 1; }
+            }
+            self.len.store(n as u32, SeqCst);
+        }
+        std::mem::forget(content);
+        Ok(())
+    }
+    fn remove(&self, _tpe: FileType, _id: &crate::id::Id, _c: bool) -> RusticResult<()> { Ok(()) }
+}
